@@ -405,6 +405,10 @@ def _parse_projection(proj_str: str) -> dict | list:
                     f"Invalid projection value: {part.upper()}. The uppercased form of "
                     f"entry {part} must be a valid ISL identifier. {s}"
                 )
+            if part.upper() in result:
+                raise ValueError(
+                    f"Duplicate rank entry: {part.upper()}. Must be unique. {s}"
+                )
             result[part.upper()] = part
 
     return result
